@@ -67,3 +67,33 @@ func VerifC13BitsSetOfMask() {
 	}
 	verifAssert("set-of-mask-is-identity", s.Equal(back))
 }
+
+// verif:bound VerifC13BitsHighBits every n = 2^i + 2^j with 0 <= j <= i <= 52 (all exact integers with one or two bits, up to the 53rd significant bit): set(n) = {i, j} and mask(set(n)) = n
+// verif:cover VerifC13BitsHighBits one-bit two-bits top-bit
+func VerifC13BitsHighBits() {
+	i := verifChoice(53)
+	j := verifChoice(i + 1)
+	n := float64(uint64(1)<<uint(i) | uint64(1)<<uint(j))
+	ctx := context.Background()
+	s, err := set(ctx, rel.NewNumber(n))
+	verifAssert("set-no-error", err == nil)
+	if err != nil {
+		return
+	}
+	want := rel.MustNewSet(rel.NewNumber(float64(i)), rel.NewNumber(float64(j)))
+	verifAssert("set-is-the-bit-positions", s.Equal(want) && want.Equal(s))
+	if i == j {
+		verifCover("one-bit")
+	} else {
+		verifCover("two-bits")
+	}
+	if i == 52 {
+		verifCover("top-bit")
+	}
+	m, err := mask(ctx, s)
+	verifAssert("mask-no-error", err == nil)
+	if err == nil {
+		num, is := m.(rel.Number)
+		verifAssert("mask-of-set-is-identity", is && float64(num) == n)
+	}
+}
